@@ -1,7 +1,14 @@
 #!/usr/bin/env python3
 # Regenerates /verif/MANIFEST.json from the table below.
 import json,subprocess
+PENDING={}
 CHECKS={
+ "C10":("exploration","bounded-exhaustive enumeration of value pairs through the public update API",
+   "For every column type of the S-types schema (23 columns) every ordered pair (a,b) of the value universe - sets as every ordered arrangement of every subset of 4 (thorough 5) elements plus nil and empty, maps over 3 (4) keys x {absent,v1,v2,default} plus nil, optionals incl. a pointer to the zero value, atoms - the difference is computed with ModelUpdates.AddOperation(update) after a JSON round trip of the operation, must be empty iff a==b as sets, is sent through JSON and applied with AddRowUpdate2 to a fresh copy of a and must give b; exact snapshots (element order, nil vs empty) of the input model and of the operation row must be unchanged; and every (value, arbitrary difference) pair must follow the update2 peer rules.",
+   "Trusted: the peer-rule oracle applyUpdate2 (ovsdb-server.7); exhaustive within the universes; random larger values named in the quantifier are not used (enumeration only).","4 C10"),
+ "C11":("model_checking","exhaustive enumeration of operation sequences vs reference model",
+   "Per column type: every sequence of length 2..3 (thorough 4) over {insert(v), update(col:=v), update of a second column, update of both, every mutator with every argument, delete} from every start state (row absent / present with two values), each prefix aggregated both by repeated AddOperation on one ModelUpdates and by Merge of per-operation updates, observed through ForEachModelUpdate / ForEachRowUpdate / GetModel / GetRow and compared with the reference model's net change (first old, last new, modify applied to first old = last new, cancellation, insert+changes = one insert, anything+delete = one delete of the original).",
+   "Trusted: mc/refmodel for single-operation semantics; the current model handed to each AddOperation is rebuilt from the reference state (API contract). The merge with reference-driven updates (ProcessReferences) is exercised by C04/C07, not here.","4 C11"),
  "C02":("model_checking","explicit-state search over the real server + failing-transaction alphabet",
    "Breadth-first search over histories of committed transactions on the real in-memory server; from every state every failing transaction (20 failure causes x prefixes of successful operations x suffix) and every rejected alphabet transaction is executed with two recording monitors attached; rows + reference index must be unchanged, no monitor notified, reply shape legal, and six sentinel transactions must behave exactly as on a replay that never saw the failure. Exhaustive within the alphabet and depth.",
    "Trusted: canonical dump of rows and of GetReferences; the failing alphabet as representative of failure causes; depth 2 (quick) / 3 (thorough).","4 C02"),
@@ -24,7 +31,7 @@ CHECKS={
    "From every explored state every alphabet transaction is executed with 40 (quick) monitors registered through the server's own Monitor/MonitorCond handlers on recording rpc2 codecs: all tables x select-flag sets, table subsets x column subsets, both encodings. The notification exactly as it would go on the wire is decoded and applied, with an oracle written from RFC 7047 / ovsdb-server.7, to the monitored view before the transaction; the result must be the view after it restricted to the selected kinds of change; at most one notification, none for rejected transactions, right method name and id, no unrequested table or column.",
    "Trusted: the oracle's update/update2 application rules (omitted column = default); empty containers are counted, not flagged; monitor_cond_since is not covered here (the in-tree server never sends update3).","4 C07"),
 }
-PENDING={}
+ 
 props=[json.loads(l)["id"] for l in open("/verif/properties.jsonl")]
 hooks=subprocess.run("git -C /repo log --format=%h --grep='^verif hooks' ",shell=True,capture_output=True,text=True).stdout.split()
 m={"version":1,
